@@ -2,7 +2,7 @@
 //! automata: all reachable states x 256 bytes x both anchoring arguments.
 //! B2: bisimulation between the reference noncontiguous NFA and every other representation
 //! (exhaustive over haystacks per automaton; bounded over pattern lists).
-use crate::eng::{build, with_low, Built, Cfg, DynAut};
+use crate::eng::{build, with_low, with_low_pair, Built, Cfg, DynAut};
 use crate::gen::{enc_pats, show_pats};
 use crate::oracle::Kind;
 use crate::sem::{cfg_set, family};
@@ -170,6 +170,79 @@ pub fn check_ac(rep: &Report, cfg: &Cfg, pats: &[Vec<u8>], a: &dyn DynAut) {
     rep.count("states_walked", nstates);
 }
 
+/// C16/C04: a borrowed automaton (`&A`, the forwarding impl in automaton.rs) answers every
+/// low-level method like the automaton itself, on every reachable state
+pub fn check_forward(rep: &Report, cfg: &Cfg, pats: &[Vec<u8>], a: &dyn DynAut, r: &dyn DynAut) {
+    let bad = |what: &str, detail: String| fail(rep, &format!("a borrowed automaton forwards {}", what), cfg, pats, detail);
+    if a.patterns_len() != r.patterns_len() {
+        bad("patterns_len", format!("{} vs {}", a.patterns_len(), r.patterns_len()));
+    }
+    if a.min_pattern_len() != r.min_pattern_len() {
+        bad("min_pattern_len", format!("{} vs {}", a.min_pattern_len(), r.min_pattern_len()));
+    }
+    if a.max_pattern_len() != r.max_pattern_len() {
+        bad("max_pattern_len", format!("{} vs {}", a.max_pattern_len(), r.max_pattern_len()));
+    }
+    if a.match_kind() != r.match_kind() {
+        bad("match_kind", String::new());
+    }
+    if a.has_prefilter() != r.has_prefilter() {
+        bad("prefilter", String::new());
+    }
+    for p in 0..a.patterns_len().min(64) {
+        if a.pattern_len(p) != r.pattern_len(p) {
+            bad("pattern_len", format!("pattern {}", p));
+        }
+    }
+    let mut seen: HashSet<u32> = HashSet::new();
+    let mut q = VecDeque::new();
+    for anch in [false, true] {
+        let (x, y) = (a.start_state(anch), r.start_state(anch));
+        if x != y {
+            bad("start_state", format!("anchored={}: {:?} vs {:?}", anch, x, y));
+        }
+        if let Ok(s) = x {
+            if seen.insert(s) {
+                q.push_back(s);
+            }
+        }
+    }
+    let mut n = 0usize;
+    while let Some(s) = q.pop_front() {
+        n += 1;
+        if n > 3000 {
+            break;
+        }
+        if (a.is_dead(s), a.is_match(s), a.is_special(s), a.is_start(s)) != (r.is_dead(s), r.is_match(s), r.is_special(s), r.is_start(s)) {
+            bad("is_dead/is_match/is_special/is_start", format!("state {}", s));
+        }
+        if a.is_match(s) {
+            if a.match_len(s) != r.match_len(s) {
+                bad("match_len", format!("state {}", s));
+            } else {
+                for i in 0..a.match_len(s) {
+                    if a.match_pattern(s, i) != r.match_pattern(s, i) {
+                        bad("match_pattern", format!("state {} index {}", s, i));
+                    }
+                }
+            }
+        }
+        for anch in [false, true] {
+            for b in 0..=255u8 {
+                let t = a.next_state(anch, s, b);
+                if t != r.next_state(anch, s, b) {
+                    bad("next_state", format!("state {} byte {}", s, b));
+                    return;
+                }
+                if seen.insert(t) {
+                    q.push_back(t);
+                }
+            }
+        }
+    }
+    rep.cases_n(n * 512, n * 512);
+}
+
 pub static LENS: std::sync::atomic::AtomicBool = std::sync::atomic::AtomicBool::new(false);
 
 pub fn run(args: &Args) -> Report {
@@ -207,6 +280,9 @@ pub fn run(args: &Args) -> Report {
                         let r = catch_unwind(AssertUnwindSafe(|| {
                             if let Ok(b) = build(&cfg, pats) {
                                 with_low(&b, &mut |a| check_ac(&rep, &cfg, pats, a));
+                                if !LENS.load(std::sync::atomic::Ordering::Relaxed) {
+                                    with_low_pair(&b, &mut |a, r| check_forward(&rep, &cfg, pats, a, r));
+                                }
                             }
                         }));
                         if r.is_err() {
